@@ -129,6 +129,19 @@ def main(tier, seed, replay=None):
                 a = c["model"]["init"]
                 c["ops"] = [["observe"], ["jac"], ["set", a], ["observe"], ["jac"], ["ref", a]]
                 cases.append(c)
+    # +0.0 and -0.0 are different parameter values (they compare equal, the model values at them need not): builder-made and
+    # hand-written models, both orders
+    for fam in ("exp2c", "exp1l", "exp1"):
+        for bm in (True, False):
+            for first in (0.0, -0.0):
+                c = gen_problem(rng, family=fam, ctor=rng.choice(["new", "mrhs"]), quant=8, builder_made=bm, scalar="f64")
+                P0 = c["meta"]["P"]
+                import math
+                other = -0.0 if math.copysign(1.0, first) > 0 else 0.0
+                a0 = [hx(first, "f64")] * P0
+                a1 = [hx(other, "f64")] * P0
+                c["ops"] = [["set", a0], ["observe"], ["jac"], ["set", a1], ["observe"], ["jac"], ["ref", a1], ["ref", a0]]
+                cases.append(c)
     nshape = len(cases)
     for i in range(n):
         cases.append(gen(rng, i))
@@ -146,6 +159,14 @@ def main(tier, seed, replay=None):
             d = repeated_queries_identical(c, r) or shapes_ok(c, r)
             if d:
                 run.violation("history: " + d, {"case": c, "implementation": r})
+            # the harness's models (hand-written and builder-made) store exactly the vector they accept: after a successful update the
+            # parameters in effect are bit for bit the ones applied (+0.0 and -0.0 are different values)
+            lg = r["steps"][-1].get("log") or []
+            for e in lg:
+                if e[0] == "S" and e[2] and e[3] is not None and e[1] != e[3]:
+                    run.violation("history: a successful update to %r left the parameters %r in effect" % ([unhx(h) for h in e[1]], [unhx(h) for h in e[3]]),
+                                  {"case": c, "log_entry": e})
+                    break
     nok, nprov = hist.evaluate(run, "C10", cases, results, what="history", classify=classify)
     # release profile: whatever it shows differently from the dev profile goes through the same judgement
     extra = release_differences("scenario", cases, results, workdir, timeout_ms=10000)
